@@ -273,7 +273,8 @@ def goal_text(a, forall_lt=False) -> str:
     needs_lt = any(has_lifetime(t) for t in a[1])
     lt = LtCtx("'a" if (forall_lt and needs_lt) else "'static")
     s = atom_text(a, _ivar, lt)
-    binders = (["'a"] if (forall_lt and needs_lt) else []) + ["X%d" % k for k in phs]
+    # type placeholders first: X_k must be the k-th variable of its universe (the dump reads it back by index)
+    binders = ["X%d" % k for k in phs] + (["'a"] if (forall_lt and needs_lt) else [])
     if binders:
         s = "forall<%s> { %s }" % (", ".join(binders), s)
     return s
